@@ -4,6 +4,6 @@ CONSTANTS
   Strings <- StringsDef
   Kinds <- KindsDef
   Queries <- QueriesDef
-INVARIANTS Inv_Load Inv_Get Inv_Lock Inv_Stable Inv_Highest Inv_Groups
+INVARIANTS Inv_Load Inv_Get Inv_Lock Inv_Stable Inv_Highest Inv_Groups Inv_LockList
 CONSTRAINT Export
 CHECK_DEADLOCK FALSE
